@@ -7,6 +7,7 @@ import Drv.Meta
 import Drv.Wire
 import Drv.Filter
 import Drv.Follow
+import Drv.Copy
 open Lean Drv
 
 /-- which repairs (`fix:` commits) the model follows; the driver always runs the repaired model,
@@ -29,6 +30,7 @@ def handle (j : Json) : Except String Json := do
   | "patmatch" => hPatMatch j
   | "followlinks" => hFollow j
   | "dedupe" => hDedupe j
+  | "copy" => hCopy j
   | "metasync" => hMetaSync j
   | "sendproto" => hSendProto j
   | "recvproto" => hRecvProto j
